@@ -116,6 +116,22 @@ def run(ctx, W):
             wl.distribute(W.src, col, W.dst, uniq, volume=v, multi_disp=md)
         else:
             wl.distribute(W.src, col, W.dst, uniq, volume=v, multi_disp=md, label=label)
+    elif op in ("evo_aspirate", "evo_dispense"):
+        lab, ids = (W.src, sids) if op == "evo_aspirate" else (W.dst, dids)
+        nrow = len(lab.row_ids)
+        cnd = list(dict.fromkeys([ids[0], ids[min(1, len(ids) - 1)], ids[min(nrow, len(ids) - 1)]]))
+        wells = [ctx.choose(f"well{i}", cnd) for i in range(k)]
+        shape = ctx.choose("volshape", ["list", "scalar"])
+        if shape == "scalar":
+            v = ctx.real("x0", 0)
+            vols, per = v, [v] * k
+        else:
+            per = [ctx.real(f"x{i}", 0) for i in range(k)]
+            vols = list(per)
+        sign = -1 if op == "evo_aspirate" else 1
+        W.named = [(lab.name, w, sign, v) for w, v in zip(wells, per)]
+        W.cfg = (op, tuple(wells), shape)
+        getattr(wl, op)(lab, wells, (38, 2), list(range(1, k + 1)), vols, "LC", **kw)
     else:
         raise AssertionError(op)
     return W
